@@ -864,7 +864,15 @@ func processStructProvider(fset *token.FileSet, info *types.Info, call *ast.Call
 		return nil, notePosition(fset.Position(call.Pos()),
 			fmt.Errorf(firstArgReqFormat, types.TypeString(structType, nil)))
 	}
-	typeName, ok := qualifiedIdentObject(info, stExpr.Args[0]).(*types.TypeName) // should be either an identifier or selector
+	typeExpr := astutil.Unparen(stExpr.Args[0])
+	switch inst := typeExpr.(type) {
+	case *ast.IndexExpr:
+		// An instantiated generic type: new(Box[int]).
+		typeExpr = inst.X
+	case *ast.IndexListExpr:
+		typeExpr = inst.X
+	}
+	typeName, ok := qualifiedIdentObject(info, typeExpr).(*types.TypeName) // should be either an identifier or selector
 	if !ok {
 		return nil, notePosition(fset.Position(call.Pos()),
 			fmt.Errorf(firstArgReqFormat, types.TypeString(structType, nil)))
